@@ -21,11 +21,19 @@ def _mux_build(p):
         ins = list(p['lut'])                      # integer look-up table, default also an int
         kw = {'default': p['lut_default']} if p.get('lut_default') is not None else {}
         # give the result a wire context (all-int inputs are converted by mux itself)
+    if p.get('kwform'):
+        # the (deprecated) predicate form with keywords, in either keyword order
+        pred = pyrtl.Input(1, 'pred')
+        t, f = pyrtl.Input(w, 'tc'), pyrtl.Input(w, 'fc')
+        r = pyrtl.mux(pred, truecase=t, falsecase=f) if p['kwform'] == 1 else pyrtl.mux(pred, falsecase=f, truecase=t)
+        return _outs([('mux', r)])
     return _outs([('mux', pyrtl.mux(idx, *ins, **kw))])
 
 
 def _mux_spec(o, p, ins):
     n = p['n']
+    if p.get('kwform'):
+        return dict(mux=o.ite(ins['pred'] != 0, ins['tc'], ins['fc']))
     if p.get('lut') is not None:
         r = p['lut_default'] if p.get('lut_default') is not None else 0
         for i in reversed(range(len(p['lut']))):
@@ -134,16 +142,19 @@ case('mux.enum', _enum_spec, W=lambda p: p['w'] + p.get('cw', 2) + 6, pre=_enum_
 def _prio_build(p):
     from pyrtl.rtllib import muxes
     n, w = p['n'], p['w']
-    sels = [pyrtl.Input(1, 's%d' % i) for i in range(n)]
+    csel = p.get('const_sel') or {}           # {position: 0 / 1}: selects tied to a constant
+    sels = [pyrtl.Const(csel[str(i)], bitwidth=1) if str(i) in csel else pyrtl.Input(1, 's%d' % i) for i in range(n)]
     vals = [pyrtl.Input(w, 'v%d' % i) for i in range(n)]
     return _outs([('pmux', muxes.prioritized_mux(sels, vals))])
 
 
 def _prio_spec(o, p, ins):
     n = p['n']
-    r = ins['v%d' % (n - 1)]
+    csel = p.get('const_sel') or {}
+    r = ins['v%d' % (n - 1)]                  # documented: if no select is high the LAST value is returned
     for i in reversed(range(n - 1)):
-        r = o.ite(ins['s%d' % i] != 0, ins['v%d' % i], r)
+        s = csel[str(i)] if str(i) in csel else ins['s%d' % i]
+        r = o.ite(s != 0, ins['v%d' % i], r) if not isinstance(s, int) else (ins['v%d' % i] if s else r)
     return dict(pmux=r)
 
 
